@@ -1,0 +1,26 @@
+// Copyright 2022 ByteDance and its affiliates.
+//
+// Licensed under the Apache License, Version 2.0 (the "License");
+// you may not use this file except in compliance with the License.
+// You may obtain a copy of the License at
+//
+//      http://www.apache.org/licenses/LICENSE-2.0
+//
+// Unless required by applicable law or agreed to in writing, software
+// distributed under the License is distributed on an "AS IS" BASIS,
+// WITHOUT WARRANTIES OR CONDITIONS OF ANY KIND, either express or implied.
+// See the License for the specific language governing permissions and
+// limitations under the License.
+
+//go:build !verif
+// +build !verif
+
+package clusters
+
+import "k8s.io/client-go/rest"
+
+// verifHookRESTConfig is a no-op unless built with -tags verif.
+func verifHookRESTConfig(*rest.Config) {}
+
+// verifOrderNames is the identity unless built with -tags verif.
+func verifOrderNames(names []string) []string { return names }
